@@ -155,6 +155,24 @@ theorem if_end_restep (c : Ctx) (it : Item) (hrow : c.row = 8) (hn : PlainName (
     · rw [hr]; decide
     · exact hn
 
+/-- an ENUM definition (no name since the repair): its printed END line `END ENUM` closes it again -/
+theorem enum_end_restep (c : Ctx) (it : Item) (hrow : c.row = 3) (hn : endName c = []) :
+    step Gen.tables c (reEnd it.id it.label (endText Gen.tables c)) = .close := by
+  have hr : rowAt Gen.tables c.row = Gen.row3 := by rw [hrow]; rfl
+  apply step_close_of_endOk
+  · rfl
+  · simp [shared, hit, isDo, hr, Gen.row3]
+  · apply endOk_printed
+    · rw [hr]; decide
+    · rw [hr]; decide
+    · rw [hr]
+      simp only [endText, hr, hn]
+      decide +kernel
+    · rw [hr]; decide
+    · rw [hr]; decide
+    · rw [hr]; decide
+    · rw [hn]; exact ⟨by decide, by decide⟩
+
 example : PlainName "foo".toList ∧ ("foo".toList).all isWord = true :=
   ⟨⟨by decide, by decide⟩, by decide⟩
 
